@@ -341,6 +341,62 @@ theorem C16_disposition_same_file (f : Faults) (m : OpenMode) (t : Tree) (rs : L
     (file typ n1 n2 : Str) :
     (dispFile f m t rs file typ n1).2 = (dispFile f m t rs file typ n2).2 := rfl
 
+/-! ## why nothing may touch the name after `Clean` and the join (round 5)
+
+`clean_rooted_no_dotdot` / `C16_mw_contained` speak about the name the handler passes to `Open`:
+`Clean(Root)` followed by *real* elements, where "real" (`Normal`) only means: not empty, not `.`,
+not `..`, no slash.  An element may contain any other byte — NUL, line breaks, tab, zero-width
+code points.  So the guarantee is NOT stable under removing bytes from the finished name: for
+every byte `b` other than `.` and `/` the elements `.b.`, `b..`, `..b` are real, and dropping `b`
+makes them `..`.  A "sanitising" step placed after `Clean` (drop NUL, trim space, strip control or
+zero-width characters) therefore re-creates the dot-dot element that `Clean("/"+p)` has just
+excluded; it has to run before `Clean`, or not at all.  The model has no such step: it opens
+`mwName` itself, and the correspondence run compares the recorded names byte for byte. -/
+
+/-- a "sanitiser": remove every occurrence of the byte `b` -/
+def dropByte (b : Char) (s : Str) : Str := s.filter (fun c => c != b)
+
+/-- **C16_lookalike_normal** — for EVERY byte `b` except `.` and `/`: `.b.`, `b..`, `..b` are
+    real path elements (they survive `Clean` untouched), and each is `..` once `b` is dropped. -/
+theorem C16_lookalike_normal (b : Char) (hd : b ≠ '.') (hs : b ≠ '/') :
+    Normal ['.', b, '.'] ∧ Normal [b, '.', '.'] ∧ Normal ['.', '.', b] ∧
+    dropByte b ['.', b, '.'] = dotdot ∧ dropByte b [b, '.', '.'] = dotdot ∧
+    dropByte b ['.', '.', b] = dotdot := by
+  have hd' : ('.' != b) = true := by simp [bne_iff_ne, Ne.symm hd]
+  refine ⟨?_, ?_, ?_, ?_, ?_, ?_⟩
+  · simp [Normal, dot, dotdot, Ne.symm hs]
+  · simp [Normal, dot, dotdot, Ne.symm hs, hd]
+  · simp [Normal, dot, dotdot, Ne.symm hs]
+  · simp [dropByte, List.filter, hd', dotdot]
+  · simp [dropByte, List.filter, hd', dotdot]
+  · simp [dropByte, List.filter, hd', dotdot]
+
+/-- **C16_lookalike_under** — such an element anywhere below `Root` is within what
+    `C16_mw_contained` promises (so the promise alone does not survive a later byte-dropping) -/
+theorem C16_lookalike_under (root : Str) (hroot : RootOK root) (b : Char) (hd : b ≠ '.') (hs : b ≠ '/')
+    (rest : List Str) (hrest : ∀ s ∈ rest, Normal s) :
+    Under root (render (isRooted root) (cleanSegsOf root ++ ['.', b, '.'] :: rest)) := by
+  apply under_render root hroot
+  intro s hs'
+  rcases List.mem_cons.mp hs' with h | h
+  · rw [h]; exact (C16_lookalike_normal b hd hs).1
+  · exact hrest s h
+
+-- end to end, `StaticConfig{Root: "public", Filesystem: http.Dir(<parent>)}`: the request `/.%00./secret`
+-- opens `public/.\0./secret` (refused by http.Dir: 500); with the NUL dropped AFTER the join the name is
+-- `public/../secret`, which is not under Root and which http.Dir resolves to the secret next to the root
+example : mw (exCfg false) exTree [] [] [] (S "/.%00./secret") .notFound = ([S "public/.\x00./secret"], .error500) ∧
+    dropByte (Char.ofNat 0) (S "public/.\x00./secret") = S "public/../secret" ∧
+    fsOpen .httpDir exTree [] (dropByte (Char.ofNat 0) (S "public/.\x00./secret")) = .file 4 := by decide +kernel
+example : mw (exCfg false) exTree [] [] [] (S "/..%0a/secret") .notFound = ([S "public/..\n/secret"], .pass404) ∧
+    fsOpen .httpDir exTree [] (dropByte '\n' (S "public/..\n/secret")) = .file 4 ∧
+    fsOpen .httpDir exTree [] (dropByte '\t' (S "public/\t../secret")) = .file 4 := by decide +kernel
+-- the other file-system kinds with a NUL in the name
+example : fsOpen .httpDirFS exTree [S "public"] (S "/a\x00.txt") = .invalid ∧
+    fsOpen .httpIoFS exTree [S "public"] (S "/a\x00.txt") = .notExist ∧
+    fsOpen .httpMapFS exTree [S "public"] (S "/a\x00.txt") = .notExist ∧
+    fsOpen .httpDirFS exTree [S "public"] (S "/a.txt/\x00") = .notExist := by decide +kernel
+
 /-! ## non-vacuity -/
 
 section Examples
